@@ -166,6 +166,8 @@ func cornerEvents(prop string) []string {
 			gw.EvC("CONNECT(protocol id 2)", refsn.Pkt{Type: refsn.CONNECT, ProtoID: 2, Duration: 30, Data: []byte("c1")}.Encode()),
 			// requests in the 3-octet length form although they are short (MQTT-SN 1.2 5.2.1 allows it): a reply that
 			// reuses the request's header must still be well-formed
+			// two messages at once: a sleeping client's backlog of more than one packet
+			gw.Ev("2 broker PUBLISHes (xy,q0)", gw.EvB("", refmqtt.EncPublish("xy", 0, false, false, 0, []byte("one"))), gw.EvB("", refmqtt.EncPublish("xy", 0, false, false, 0, []byte("two")))),
 			gw.EvC("DISCONNECT(3-octet length form)", []byte{0x01, 0x00, 0x04, 0x18}),
 			gw.EvC("PINGREQ(3-octet length form)", []byte{0x01, 0x00, 0x04, 0x16}),
 			gw.EvC("DISCONNECT(5, 3-octet length form)", []byte{0x01, 0x00, 0x06, 0x18, 0x00, 0x05}),
@@ -201,6 +203,10 @@ func cornerEvents(prop string) []string {
 		gw.EvC("WILLTOPIC(w,q1)", gw.WillTopic("w", 1, true)),
 		gw.EvC("WILLMSG(m)", gw.WillMsg("m")),
 		gw.EvC("PUBREL(mid 0)", gw.Pubrel(0)),
+		gw.EvC("PUBLISH(q0,predef 5 = s/+/t)", gw.Publish(1, 5, 0, 0, false, false, "x")),
+		gw.EvC("PUBLISH(q1,predef 6 = s/#)", gw.Publish(1, 6, 4, 1, false, false, "x")),
+		gw.EvC("PUBLISH(q0,predef 7 = empty name)", gw.Publish(1, 7, 0, 0, false, false, "x")),
+		gw.EvC("SUBSCRIBE(predef 7 = empty name)", gw.SubscribeID(5, 1, 7, 1, false)),
 	)
 	return a
 }
@@ -223,6 +229,10 @@ func c2324specs(prop string) []gw.Spec {
 	}
 	cfg := gw.DefaultConfig()
 	cfg.Predefined = topics.PredefinedTopics{"*": {1: "p/1"}}
+	if prop == "C24" {
+		// predefined names a client may subscribe to but cannot publish on: filters, and an empty name
+		cfg.Predefined = topics.PredefinedTopics{"*": {1: "p/1", 5: "s/+/t", 6: "s/#", 7: ""}}
+	}
 	var pre, post []string
 	for _, e := range cornerEvents(prop) {
 		l := gw.Label(e)
@@ -251,9 +261,9 @@ func runWellFormed(t *testing.T, prop, test string) {
 	rep := explore.NewReport(prop, "model_checking")
 	gw.BFSCheck(rep, specs, gw.BFSOpts{Test: test}, 240, 1500)
 	if prop == "C23" {
-		rep.Coverage["rule"] = "BFS (depth 3, thorough 4) over connect / subscribe / sleep / wake events plus the corner inputs the property names (broker payloads of 0..70000 bytes on short, predefined and new topics, payloads and new topic names that put the datagram size at 254..258 bytes, an 8170-byte new topic name, a 7168-byte REGISTER, CONNECT with keep-alive 0 and with a wrong protocol id, CONNECT while asleep/awake, DISCONNECT / PINGREQ requests in the 3-octet length form); every datagram the gateway sends is decoded by the reference decoder: decodable, type valid gateway->client, length field = size, canonical length form, size <= 8192. (The client-library direction is checked by the client harness part.)"
+		rep.Coverage["rule"] = "BFS (depth 3, thorough 4) over connect / subscribe / sleep / wake events plus the corner inputs the property names (broker payloads of 0..70000 bytes on short, predefined and new topics, payloads and new topic names that put the datagram size at 254..258 bytes, an 8170-byte new topic name, a 7168-byte REGISTER, CONNECT with keep-alive 0 and with a wrong protocol id, CONNECT while asleep/awake, DISCONNECT / PINGREQ requests in the 3-octet length form, two broker messages at once for a sleeping client); every datagram the gateway sends is decoded by the reference decoder: decodable, type valid gateway->client, length field = size, canonical length form, size <= 8192. (The client-library direction is checked by the client harness part.)"
 	} else {
-		rep.Coverage["rule"] = "BFS (depth 3, thorough 4) over connect / subscribe / sleep / wake events plus malformed-but-decodable client input (reserved topic id type, QoS 1/2 with msg id 0, short topics containing wildcards, SUBSCRIBE QoS 3 / msg id 0 / malformed filters, REGISTER of wildcard names and publishing to them, will QoS 3, wildcard will topic, empty WILLTOPIC with the Will flag, empty client id without clean session, PUBREL msg id 0); every packet written to the broker is parsed and validated by an independent MQTT 3.1.1 validator"
+		rep.Coverage["rule"] = "BFS (depth 3, thorough 4) over connect / subscribe / sleep / wake events plus malformed-but-decodable client input (reserved topic id type, QoS 1/2 with msg id 0, short topics containing wildcards, SUBSCRIBE QoS 3 / msg id 0 / malformed filters, REGISTER of wildcard names and publishing to them, publishes and a subscription on predefined ids whose configured names are filters or empty, will QoS 3, wildcard will topic, empty WILLTOPIC with the Will flag, empty client id without clean session, PUBREL msg id 0); every packet written to the broker is parsed and validated by an independent MQTT 3.1.1 validator"
 	}
 	rep.Assumptions = []string{"default schedule", "data values outside the alphabet (e.g. ill-formed UTF-8 in names) are not covered", "C24 does not judge DUP=1 with QoS 0 (C01 demands the client's DUP flag is preserved)"}
 	rep.Finish()
